@@ -194,6 +194,20 @@ impl ShredPayload {
     }
 }
 
+#[cfg(feature = "verif-hooks")]
+impl ShredPayload {
+    /// Verification hook: `(slot, slice index, is_last, shred index, payload bytes)`.
+    pub fn verif_parts(&self) -> (crate::Slot, crate::types::SliceIndex, bool, usize, &[u8]) {
+        (
+            self.header.slot,
+            self.header.slice_index,
+            self.header.is_last,
+            *self.shred_index,
+            &self.data,
+        )
+    }
+}
+
 /// Number of bytes in the commitment that the leader signs for each slice.
 ///
 /// Layout: `slot` (u64 LE) || `slice_index` (u64 LE) || `is_last` (u8) || `slice_root` (32 B).
